@@ -14,6 +14,9 @@ Generated/ArrowVersions.lean (property C19): the arrow / arrow2 versions as they
                              `#[cfg(has_arrow2_0_N)] pub use arrow2_0_N as arrow2;`
 The consistency of these lists is a `decide` obligation in lean/SaModel/Props/C19.lean.
 
+Generated/AdapterBodies.lean (property C19): see adapter_bodies.py — the bodies of the `ArrayBuilder` finishers and the
+`Deserializer` constructors of marrow_impl.rs / arrow_impl.rs / arrow2_impl.rs as statement lists, every `self.schema`.
+Obligations: lean/SaModel/Props/C19Gen.lean.
 Generated/CoerceArms.lean (property C07): see coerce_arms.py — the arms of `coerce_primitive_type` (tracer.rs) as data,
 `TracingOptions::string_type`.  Obligations: lean/SaModel/Props/C07Gen.lean.
 Generated/TypeNames.lean (property C09): see type_names.py — the name tables of `build_data_type`,
@@ -30,6 +33,7 @@ sys.path.insert(0, os.path.dirname(os.path.abspath(__file__)))
 from rust_lex import Unrecognised  # noqa: E402
 import coerce_arms  # noqa: E402
 import type_names  # noqa: E402
+import adapter_bodies  # noqa: E402
 
 ROOT = os.path.dirname(os.path.dirname(os.path.abspath(__file__)))
 
@@ -293,6 +297,7 @@ def render(repo):
 # (generated module, properties whose obligations read it, renderer)
 GENERATORS = [
     ("ArrowVersions", ["C19"], render),
+    ("AdapterBodies", ["C19"], adapter_bodies.render),
     ("CoerceArms", ["C07"], coerce_arms.render),
     ("TypeNames", ["C09"], type_names.render),
 ]
